@@ -316,3 +316,79 @@ def encoder_dispatch(ctx):
                         fns.append(n)
         table[vs[v]] = fns[0] if fns else None
     return table
+
+
+# ------------------------------------------------------------------- atom interning tables ----
+def atom_intern_tables(P):
+    """(pairs, names): COMMON_ATOMS as [(text, index)] and CACHED_ATOMS as [text by position], both read from the
+    MIR of their initialisers; None for a table that is absent or not of the recognised shape."""
+    pairs = names = None
+    CB = P.B('erltf::types::COMMON_ATOMS')
+    if CB is not None:
+        tup = {}
+        arr = None
+        for bb, j, st in CB.stmts():
+            if st['k'] == '=' and st['rv']['k'] == 'agg' and st['rv']['ak'] == 'tuple' and len(st['rv']['ops']) == 2 \
+                    and all(o['k'] == 'c' for o in st['rv']['ops']) and 's' in st['rv']['ops'][0] and 'v' in st['rv']['ops'][1]:
+                tup[st['pl']['l']] = (st['rv']['ops'][0]['s'], st['rv']['ops'][1]['v'])
+            if st['k'] == '=' and st['rv']['k'] == 'agg' and st['rv']['ak'] == 'array' and st['pl']['l'] == 0:
+                arr = [o['pl']['l'] for o in st['rv']['ops'] if o['k'] in ('cp', 'mv')]
+        if arr is not None and all(l in tup for l in arr):
+            pairs = [tup[l] for l in arr]
+    SB = P.B('erltf::types::CACHED_ATOMS')
+    if SB is not None:
+        arr = None
+        for bb, j, st in SB.stmts():
+            if st['k'] == '=' and st['rv']['k'] == 'agg' and st['rv']['ak'] == 'array' and st['pl']['l'] == 0:
+                arr = [o['pl']['l'] for o in st['rv']['ops'] if o['k'] in ('cp', 'mv')]
+        if arr is not None:
+            out = []
+            for l in arr:
+                d = SB.single_def(l)
+                text = None
+                if d and d[0] == 't':
+                    vp = SB.origin(d[3]['args'][0]) if d[3]['args'] else None
+                    # the argument is a closure coerced to fn(): find the closure aggregate among the defs feeding it
+                    cur = d[3]['args'][0] if d[3]['args'] else None
+                    cdef = None
+                    for _ in range(4):
+                        if cur is None or cur.get('k') not in ('cp', 'mv'):
+                            break
+                        dd = SB.single_def(cur['pl']['l'])
+                        if dd is None or dd[0] != 's':
+                            break
+                        rv = dd[3]['rv']
+                        if rv['k'] == 'agg' and rv['ak'] == 'closure':
+                            cdef = rv['def']
+                            break
+                        cur = rv.get('op')
+                    if cdef and P.B(cdef) is not None:
+                        for b2, t2 in P.B(cdef).calls():
+                            for a in t2['args']:
+                                if a['k'] == 'c' and 's' in a:
+                                    text = a['s']
+                out.append(text)
+            names = out
+    return pairs, names
+
+
+def check_atom_tables(ctx, rule):
+    """Atom::new interns a few common atoms through two parallel tables; they must agree entry by entry."""
+    pairs, names = atom_intern_tables(ctx.P)
+    if pairs is None and names is None:
+        ctx.info_note('no atom interning tables (COMMON_ATOMS / CACHED_ATOMS) in this tree')
+        return
+    if pairs is None or names is None or any(n is None for n in names):
+        ctx.undecided(rule, 'atom-intern-tables', 'interning tables present but not of the recognised shape')
+        return
+    bad = [(t, i) for t, i in pairs if not (0 <= i < len(names)) or names[i] != t]
+    dup = sorted({t for t, i in pairs if sum(1 for t2, _ in pairs if t2 == t) > 1})
+    if bad:
+        t, i = bad[0]
+        ctx.bad(rule, 'atom-intern-tables', 'Atom::new(%r) is interned as entry %d of CACHED_ATOMS, which holds %r: every occurrence of the atom %r (decoded or constructed) silently becomes %r'
+                % (t, i, names[i] if 0 <= i < len(names) else '<out of range>', t, names[i] if 0 <= i < len(names) else '?'), ctx.where(ctx.P.B('erltf::types::COMMON_ATOMS')),
+                key='TABLE:erltf::types::COMMON_ATOMS:%s->%d' % (t, i))
+    elif dup:
+        ctx.bad(rule, 'atom-intern-tables', 'COMMON_ATOMS lists %s twice' % dup, key='TABLE:erltf::types::COMMON_ATOMS:duplicate')
+    else:
+        ctx.ok(rule, 'atom-intern-tables', 'all %d entries of COMMON_ATOMS point at the CACHED_ATOMS entry with the same text' % len(pairs), ctx.where(ctx.P.B('erltf::types::COMMON_ATOMS')))
